@@ -591,10 +591,72 @@ func C10(run *mon.Run) {
 			}
 		}
 	}
+	c10ConstructorGrid(run)
 	run.Extra["model_states_visited"] = len(states)
 	run.Require(len(states) == 5+5+3, fmt.Sprintf("model states visited: %d of 13 (N,R0,R1,R2,E for Qual and JF; N,R0,E for plain VSS)", len(states)))
 	run.Require(run.Counter("exhaustive.sequences") == int64(6*total), "exhaustive enumeration incomplete")
 	run.Require(run.Counter("twin-runs") > 1000, "too few twin runs")
+}
+
+// c10ConstructorGrid: the three constructors accept exactly size in [2, 254], threshold in [1, size-1]
+// and participant / dealer indices in [0, size-1], and refuse everything else with an invalid-inputs
+// error; an instance built at a corner of the ranges starts and, as a dealer, sends size-1 shares.
+func c10ConstructorGrid(run *mon.Run) {
+	sizes := []int{-1, 0, 1, 2, 3, 5, 127, 128, 253, 254, 255, 256, 257, 511, 1 << 20}
+	for _, n := range sizes {
+		for _, t := range []int{-1, 0, 1, 2, n / 2, n - 2, n - 1, n, n + 1, 254, 255, 256} {
+			for _, me := range []int{-1, 0, 1, n - 1, n, n + 1, 255, 256, n + 256} {
+				for _, dealer := range []int{-1, 0, n - 1, n, 256} {
+					if (me+dealer+t)%3 != 0 && !(me == 0 && dealer == 0) && !(me == n-1 && dealer == n-1) {
+						continue // a third of the grid, plus the diagonals
+					}
+					rangeOK := n >= 2 && n <= 254 && t >= 1 && t <= n-1 && me >= 0 && me < n
+					for pi, proto := range []string{"FeldmanVSS", "FeldmanVSSQual", "JointFeldman"} {
+						ok := rangeOK && (pi == 2 || dealer >= 0 && dealer < n)
+						rep := map[string]any{"protocol": proto, "size": n, "threshold": t, "index": me, "dealer": dealer}
+						rp := newRecProc()
+						var inst crypto.DKGState
+						var err error
+						if run.Guard("DKG constructor", rep, func() {
+							switch pi {
+							case 0:
+								inst, err = crypto.NewFeldmanVSS(n, t, me, rp, dealer)
+							case 1:
+								inst, err = crypto.NewFeldmanVSSQual(n, t, me, rp, dealer)
+							default:
+								inst, err = crypto.NewJointFeldman(n, t, me, rp)
+							}
+						}) {
+							continue
+						}
+						run.Eval(1)
+						run.Count("constructor-grid.points", 1)
+						if ok && err != nil {
+							run.Violate("C10:constructor-grid:refuses-legal:"+proto, fmt.Sprintf("New%s(size=%d, threshold=%d, index=%d, dealer=%d) is inside the documented ranges and returned %v", proto, n, t, me, dealer, err), rep)
+							continue
+						}
+						if !ok && !crypto.IsInvalidInputsError(err) {
+							run.Violate("C10:constructor-grid:accepts-illegal:"+proto, fmt.Sprintf("New%s(size=%d, threshold=%d, index=%d, dealer=%d) is outside the documented ranges and returned error %v", proto, n, t, me, dealer, err), rep)
+							continue
+						}
+						// a legal corner instance works: it starts, and a dealer sends one share to everybody else
+						if ok && (n == 254 || n == 2 || n == 253) && (t == 1 || t == n-1) {
+							if e := inst.Start(bytes.Repeat([]byte{9}, 32)); e != nil {
+								run.Violate("C10:constructor-grid:start", fmt.Sprintf("New%s(size=%d, threshold=%d, index=%d, dealer=%d).Start: %v", proto, n, t, me, dealer, e), rep)
+								continue
+							}
+							if (pi == 2 || me == dealer) && len(rp.priv) != n-1 {
+								run.Violate("C10:constructor-grid:shares-sent", fmt.Sprintf("%s dealer of a group of %d sent %d private shares", proto, n, len(rp.priv)), rep)
+							}
+							run.Count("constructor-grid.started", 1)
+						}
+					}
+				}
+			}
+		}
+	}
+	run.Shape("constructor-grid")
+	run.Require(run.Counter("constructor-grid.started") >= 6, "fewer than 6 corner instances were started")
 }
 
 func init() { Registry["C10"] = C10 }
